@@ -284,3 +284,88 @@ func HarnessManyStreams() {
 	verif.Quiesce()
 	verif.Reach("many-streams-done")
 }
+
+type SH struct {
+	slices [][]int64
+	maps   []map[string]int64
+}
+
+func (h *SH) Slices(ctx context.Context) (<-chan []int64, error) {
+	out := make(chan []int64)
+	go func() {
+		defer close(out)
+		for _, v := range h.slices {
+			select {
+			case out <- v:
+			case <-ctx.Done():
+				return
+			}
+		}
+	}()
+	return out, nil
+}
+
+func (h *SH) Maps(ctx context.Context) (<-chan map[string]int64, error) {
+	out := make(chan map[string]int64)
+	go func() {
+		defer close(out)
+		for _, v := range h.maps {
+			select {
+			case out <- v:
+			case <-ctx.Done():
+				return
+			}
+		}
+	}()
+	return out, nil
+}
+
+type SC struct {
+	Slices func(ctx context.Context) (<-chan []int64, error)
+	Maps   func(ctx context.Context) (<-chan map[string]int64, error)
+}
+
+// HarnessCompositeElements: streams of slices and of maps; the consumer keeps
+// every value it received: each stays exactly what the handler sent, whatever
+// arrives later (no sharing of decode storage between stream elements).
+func HarnessCompositeElements() {
+	a, b, c := verif.Int("a"), verif.Int("b"), verif.Int("c")
+	h := &SH{slices: [][]int64{{a, 1}, {b, 2}, {c}}, maps: []map[string]int64{{"x": a}, {"y": b}, {"z": c}}}
+	srv := jsonrpc.NewServer()
+	srv.Register("H", h)
+	url, stop := verif.ServeWS(srv)
+	var cl SC
+	closer, err := jsonrpc.NewMergeClient(context.Background(), url, "H", []interface{}{&cl}, nil)
+	verif.Assert(err == nil, "client-created")
+	if verif.Bool("maps") {
+		ch, e := cl.Maps(context.Background())
+		verif.Assert(e == nil && ch != nil, "subscribe")
+		var got []map[string]int64
+		for v := range ch {
+			got = append(got, v)
+		}
+		verif.Assert(len(got) == 3, "all-values-delivered")
+		if len(got) == 3 {
+			verif.Assert(len(got[0]) == 1 && got[0]["x"] == a, "first-map-intact")
+			verif.Assert(len(got[1]) == 1 && got[1]["y"] == b, "second-map-intact")
+			verif.Assert(len(got[2]) == 1 && got[2]["z"] == c, "third-map-intact")
+		}
+	} else {
+		ch, e := cl.Slices(context.Background())
+		verif.Assert(e == nil && ch != nil, "subscribe")
+		var got [][]int64
+		for v := range ch {
+			got = append(got, v)
+		}
+		verif.Assert(len(got) == 3, "all-values-delivered")
+		if len(got) == 3 {
+			verif.Assert(len(got[0]) == 2 && got[0][0] == a && got[0][1] == 1, "first-slice-intact")
+			verif.Assert(len(got[1]) == 2 && got[1][0] == b && got[1][1] == 2, "second-slice-intact")
+			verif.Assert(len(got[2]) == 1 && got[2][0] == c, "third-slice-intact")
+		}
+	}
+	closer()
+	stop()
+	verif.Quiesce()
+	verif.Reach("composite-elements-done")
+}
